@@ -35,7 +35,7 @@ func (sc *LeaseScenario) String() string {
 		}
 		return fmt.Sprintf("lapse lease=%v death-phase=%.2f", sc.Lease, sc.DiePhase)
 	}
-	return fmt.Sprintf("diesout lease=%v same-locker=%v", sc.Lease, sc.SameLocker)
+	return fmt.Sprintf("diesout lease=%v same-locker=%v renewal-faults=%v", sc.Lease, sc.SameLocker, sc.RenewFaults)
 }
 
 // LeaseObs is what one execution observed.
@@ -260,14 +260,20 @@ func (sc *LeaseScenario) Build(obs *LeaseObs) func() {
 			vsched.WaitFor("contender", func() bool { return cdone })
 			obs.Summary = fmt.Sprintf("acquired-after=%.1f leases", float64(acquiredAt-deathAt)/float64(L))
 		case "diesout":
+			gH.RenewFaults = sc.RenewFaults
 			var unlockedAt time.Duration = -1
-			casAfter, casAfterOK := 0, 0
+			casAfter, casAfterOK, casAttemptsAfter := 0, 0, 0
+			gH.OnCall = func(g *Gate, op string) {
+				if op == "Cas" && unlockedAt >= 0 {
+					casAttemptsAfter++
+				}
+			}
 			gH.OnResult = func(g *Gate, op string, err error) {
 				if op == "Cas" && unlockedAt >= 0 {
 					casAfter++
 					if err == nil {
 						casAfterOK++
-					} else if !gerrors.Is(err, gerrors.ErrNotExist) && !gerrors.Is(err, gerrors.ErrConflict) {
+					} else if !gerrors.Is(err, gerrors.ErrNotExist) && !gerrors.Is(err, gerrors.ErrConflict) && !sc.RenewFaults {
 						obs.fail("diesout:cas-error", "a renewal attempt after Unlock returned %v", err)
 					}
 				}
@@ -292,6 +298,9 @@ func (sc *LeaseScenario) Build(obs *LeaseObs) func() {
 			})
 			vsched.WaitFor("holder", func() bool { return done })
 			vsched.AwaitIdle()
+			if casAttemptsAfter > 1 {
+				obs.fail("diesout:renewal-continues", "%d renewal attempts of the finished tenure were made after Unlock returned (at most one already armed attempt is allowed, and it arms nothing)", casAttemptsAfter)
+			}
 			if casAfter > 1 {
 				obs.fail("diesout:renewal-continues", "%d renewal attempts of the finished tenure reached the storage after Unlock returned (at most one already armed attempt is allowed)", casAfter)
 			}
